@@ -748,6 +748,7 @@ class BaseWorkflow(object, metaclass=abc.ABCMeta):
                 self.task_list,
             )
         )
+        finished_task_exists = False
         for task in working_and_zero_task_set:
             # check FINISH condition by each dependency
             # SF: if input task is working
@@ -774,6 +775,7 @@ class BaseWorkflow(object, metaclass=abc.ABCMeta):
                         finished = False
                         break
             if finished:
+                finished_task_exists = True
                 task.state = BaseTaskState.FINISHED
                 task.remaining_work_amount = 0.0
 
@@ -804,6 +806,11 @@ class BaseWorkflow(object, metaclass=abc.ABCMeta):
                             facility.assigned_task_list.remove(task)
 
                     task.allocated_facility_list = []
+
+        # A task finished above may satisfy the FF / SF condition of another task of the set.
+        # Repeat until nothing changes: the result must not depend on the order of the set.
+        if finished_task_exists:
+            self.__check_finished(time, error_tol=error_tol)
 
     def __set_est_eft_data(self, time: int):
         input_task_set = set()
